@@ -133,9 +133,24 @@ class SimExecutor(object):
         for i in fin:
             yield futs[i]
 
+    @staticmethod
+    def failure(sch, i):
+        """What a real pool reports when a chain's worker fails: the chain's own exception, MemoryError, a broken pool ..."""
+        kind = sch.get("fail_kind", "custom")
+        msg = "simulated worker died while running chain %d" % i
+        if kind == "memory":
+            return MemoryError(msg)
+        if kind in ("broken_pool", "killed"):
+            from concurrent.futures.process import BrokenProcessPool
+
+            return BrokenProcessPool("A process in the process pool was terminated abruptly while the future was running or pending. (" + msg + ")")
+        if kind == "oserror":
+            return OSError(errno.EIO, msg)
+        return WorkerFailure(msg)
+
     def _run_one(self, futs, i, sch):
         if sch.get("fail_chain") == i:
-            futs[i]._exc = WorkerFailure("simulated worker died while running chain %d" % i)
+            futs[i]._exc = self.failure(sch, i)
             futs[i].done = True
             self.stats["worker_failed"] = self.stats.get("worker_failed", 0) + 1
         else:
@@ -193,7 +208,7 @@ class SimExecutor(object):
         out, delta = pickle.loads(data)
         for i, res, err, failed in out:
             if failed:
-                futs[i]._exc = WorkerFailure(err[1])
+                futs[i]._exc = self.failure(sch, i)
                 self.stats["worker_failed"] = self.stats.get("worker_failed", 0) + 1
             elif err is not None:
                 futs[i]._exc = ChainError(*err)
@@ -485,7 +500,7 @@ def innermost_phyclone_frame(e):
     for fr in frames:
         if "/phyclone/" in fr.filename:
             where = "%s:%s" % (fr.filename.split("phyclone/")[-1], fr.name)
-    injected = isinstance(e, WorkerFailure) or (isinstance(e, OSError) and getattr(e, "errno", None) == errno.ENOSPC)
+    injected = isinstance(e, (WorkerFailure, MemoryError)) or (isinstance(e, OSError) and getattr(e, "errno", None) in (errno.ENOSPC, errno.EIO)) or type(e).__name__ == "BrokenProcessPool"
     if frames and not injected and os.path.join("sim", "") in frames[-1].filename and "/phyclone/" not in frames[-1].filename:
         # the exception was raised by harness code (a wrapper that no longer fits the code under test): never a verdict
         from sim import runner
